@@ -375,6 +375,20 @@ pub fn run_plan(bytes: &[u8], plan: &[Inj], mm: bool) -> Result<Applied, Outcome
 
 /// Like `run_plan`, with `encodes` consecutive encodings; the last output is returned.
 pub fn run_plan_n(bytes: &[u8], plan: &[Inj], mm: bool, encodes: usize) -> Result<Applied, Outcome> {
+    run_plan_edit(bytes, plan, mm, encodes, &[])
+}
+
+/// Index-shifting edits made on the module before the plan is applied (module paths only).
+#[derive(Clone, Debug, PartialEq)]
+pub enum PreEdit {
+    /// add_import_func("pre", "imp<k>", type index): every local function index shifts
+    AddImportFunc(u32),
+    /// replace the function import with this ImportsID by a built function whose body is `unreachable`
+    ReplaceImport(u32, Vec<wirm::DataType>, Vec<wirm::DataType>),
+}
+
+/// `run_plan_n` with edits that re-index the function space before the plan is applied.
+pub fn run_plan_edit(bytes: &[u8], plan: &[Inj], mm: bool, encodes: usize, pre: &[PreEdit]) -> Result<Applied, Outcome> {
     let component = plan.iter().any(|i| i.path.is_component());
     let mut rejected = vec![];
     crate::capture::clear_logs();
@@ -413,6 +427,21 @@ pub fn run_plan_n(bytes: &[u8], plan: &[Inj], mm: bool, encodes: usize) -> Resul
             Ok(m) => m,
             Err(o) => return Err(o),
         };
+        for (k, e) in pre.iter().enumerate() {
+            let r = run_lib(|| match e {
+                PreEdit::AddImportFunc(ty) => {
+                    module.add_import_func("pre".to_string(), format!("imp{}", k), wirm::ir::id::TypeID(*ty));
+                }
+                PreEdit::ReplaceImport(imp, params, results) => {
+                    let mut b = wirm::ir::function::FunctionBuilder::new(params, results);
+                    b.inject(Operator::Unreachable);
+                    b.replace_import_in_module(&mut module, wirm::ir::id::ImportsID(*imp));
+                }
+            });
+            if let Err(p) = r {
+                return Err(super::common::panic_fail("pre-edit", &p));
+            }
+        }
         for inj in plan {
             let r = run_lib(|| apply_module(&mut module, inj));
             rejected.push(r.err().map(|p| p.msg));
